@@ -27,11 +27,24 @@ extern "C" void vfh_C07_reinit(void)
 	Phreeqc *used = new Phreeqc(&io);
 	used->clean_up(); used->init(); used->do_initialize();
 	/* counts and sizes that clean_up / initialize use as loop bounds over containers keep their (consistent) values */
-	vf_havoc_except((void *) used, "Phreeqc", "count_|max_|n_|num|size|new_");
+	vf_havoc_except((void *) used, "Phreeqc", "count_|max_|n_|num|size|new_|stag_data.count_stag");
 	used->phrq_io = &io;
 	used->clean_up();
 	used->init();
 	used->do_initialize();
 	vf_reach("reinit.compared");
-	vf_same_scalars("reinit.scalars_as_fresh", (void *) used, (void *) fresh, "Phreeqc");
+	/* Reviewed members that a load does not reset and that cannot influence later results:
+	   - use.*: cxxUse::init() runs at the start of every read_input();
+	   - last_model.numerical_fixed_volume: only compared by check_same_model when force_prep is false, and a load sets force_prep;
+	   - base_error_count of the DUMP, DELETE, RUN_CELLS request objects and the "defined" flag of their -cell item: reset when the next
+	     request is read (StorageBinList::Read starts by clearing the cell item);
+	   - mixrun, sit_aqueous_unknowns, kgw_kgs, bdot_llnl, solution_volume_x, solution_mass_x, rho_0_sat, SC: never initialised by the
+	     constructor either; each is assigned by the routine that precedes every read (transport loop, prep, calc_solution_volume /
+	     convert_units, gammas, calc_rho_0, calc_SC);
+	   - fpunchf_user_buffer / token: scratch character buffers. */
+	vf_same_scalars_except("reinit.scalars_as_fresh", (void *) used, (void *) fresh, "Phreeqc",
+		"use.|last_model.numerical_fixed_volume|"
+		"dump_info.base_error_count|dump_info.binList.base_error_count|delete_info.base_error_count|run_info.base_error_count|"
+		"dump_info.binList.cell.defined|delete_info.cell.defined|"
+		"mixrun|sit_aqueous_unknowns|kgw_kgs|bdot_llnl|solution_volume_x|solution_mass_x|rho_0_sat|SC|fpunchf_user_buffer|token");
 }
